@@ -350,6 +350,68 @@ fn string_op_inner<'b>(ctx: &mut Ctx, bump: &'b Bump, s: &mut BString<'b>, t: &m
                     ctx.v("C14", "AsRef<str> / AsRef<[u8]> / Borrow<str> give different text".into());
                 }
             }
+            // exclusive views: IndexMut over every range form, DerefMut, BorrowMut<str>; ASCII case changes keep UTF-8
+            let (lo, hi) = {
+                let mut lo = (a as usize * (len + 1)) >> 8;
+                while !t.is_char_boundary(lo) {
+                    lo -= 1;
+                }
+                let mut hi = lo + (((b as usize) * (len - lo + 1)) >> 8);
+                while !t.is_char_boundary(hi) {
+                    hi -= 1;
+                }
+                (lo, hi.max(lo))
+            };
+            ctx.both(
+                &format!("IndexMut ranges {lo}..{hi} / BorrowMut<str> / DerefMut"),
+                || {
+                    use std::borrow::BorrowMut;
+                    s[lo..hi].make_ascii_uppercase();
+                    s[..lo].make_ascii_lowercase();
+                    s[hi..].make_ascii_uppercase();
+                    if hi > lo {
+                        s[lo..=hi - 1].make_ascii_lowercase();
+                        s[..=hi - 1].make_ascii_uppercase();
+                    }
+                    s[..].make_ascii_lowercase();
+                    BorrowMut::<str>::borrow_mut(&mut *s).make_ascii_uppercase();
+                    s.as_mut_str().make_ascii_lowercase();
+                    if c & 2 != 0 {
+                        // the unsafe byte view, used within its contract (ASCII appended)
+                        unsafe { s.as_mut_vec().push(b'!') };
+                    }
+                },
+                || {
+                    use std::borrow::BorrowMut;
+                    t[lo..hi].make_ascii_uppercase();
+                    t[..lo].make_ascii_lowercase();
+                    t[hi..].make_ascii_uppercase();
+                    if hi > lo {
+                        t[lo..=hi - 1].make_ascii_lowercase();
+                        t[..=hi - 1].make_ascii_uppercase();
+                    }
+                    t[..].make_ascii_lowercase();
+                    BorrowMut::<str>::borrow_mut(&mut *t).make_ascii_uppercase();
+                    t.as_mut_str().make_ascii_lowercase();
+                    if c & 2 != 0 {
+                        unsafe { t.as_mut_vec().push(b'!') };
+                    }
+                },
+            );
+            if c & 4 != 0 {
+                // take the string apart and rebuild it from its raw parts / from its bytes without re-validation
+                let (sp, sl, sc) = (s.as_mut_ptr(), s.len(), s.capacity());
+                let old = std::mem::replace(s, BString::new_in(bump));
+                if c & 8 != 0 {
+                    std::mem::forget(old);
+                    *s = unsafe { BString::from_raw_parts_in(sp, sl, sc, bump) };
+                } else {
+                    *s = unsafe { BString::from_utf8_unchecked(old.into_bytes()) };
+                }
+                if s.len() != sl || s.capacity() != sc || s.as_ptr() != sp as *const u8 || s.as_str() != t.as_str() {
+                    ctx.v("C14", "a String rebuilt from its raw parts / unchecked bytes differs from the original".into());
+                }
+            }
         }
         19 | 20 | 21 | 24 => return SAfter::Consume,
         _ => {}
